@@ -171,6 +171,7 @@ class Batch(object):
         self.ctx = ctx
         self.terms = []
         self.info = []
+        self.shown = 0
 
     def add(self, a, b, case):
         self.terms.append("(%s) && (%s)" % (a, b))
@@ -187,7 +188,10 @@ class Batch(object):
             for j, ix in enumerate(bad):
                 case = self.info[ix][2]
                 if 2 * j in bad2:
-                    model = ctx.coq_eval(IMPORTS, self.info[ix][0].replace("chk_place", "share_placement").rsplit("[", 1)[0], preamble=PREAMBLE)
+                    model = "(model result shown for the first disagreements only)"
+                    if self.shown < 2:
+                        self.shown += 1
+                        model = ctx.coq_eval(IMPORTS, self.info[ix][0].replace("chk_place", "share_placement").rsplit("[", 1)[0], preamble=PREAMBLE)
                     ctx.mismatch("placement-model-vs-impl", "Coq model of share_placement and the implementation return different placements",
                                  case=case, expected=model[-600:], observed=case.get("result"), correspondence="share_placement-vs-model")
                 if 2 * j + 1 in bad2:
